@@ -62,6 +62,20 @@ type Options struct {
 	Deadline      time.Time
 	MaxSteps      int // per execution; default 100000
 	TimerOrder    TimerOrder
+	// DelayBounded (added for C14; default off = preemption bounding as before): P counts every
+	// deviation from the canonical run-to-block schedule, not only preemptions. When the current
+	// goroutine cannot continue, the first enabled non-environment goroutine in creation order runs
+	// for free and switching to any other one costs one unit of P (delay bounding). Select / Choose
+	// alternatives of the running goroutine stay free. The P=k space is a subset of the
+	// preemption-bounded P=k space; it is what makes large harnesses (25+ goroutines) tractable.
+	DelayBounded bool
+	// LazyTimers (added for C14; default off): an armed channel timer may fire only while somebody
+	// can observe it - a goroutine is parked on a receive/select that includes the timer's channel,
+	// or its pending operation is Stop/Reset of that timer. Firing commutes with every transition
+	// that does not touch the timer, so delaying it to the first such moment loses no behaviour; it
+	// removes the 2^n placements of ticks nobody waits for (time.After of a goroutine that has
+	// exited, a ticker whose reader is busy elsewhere). AfterFunc timers are not affected.
+	LazyTimers bool
 	Root          []int // fixed choice prefix (the subtree to explore)
 	FrontierDepth int   // >0: cut every execution at that many choice points and collect the prefixes in Stats.Roots
 	MaxViolations int   // stop after that many violations; default 1
@@ -126,6 +140,7 @@ type explorer struct {
 	budget    Budget
 	bounded   bool
 	visited   map[H]bud
+	extra     map[H][]bud // further, pairwise incomparable budget pairs of a key (see seen)
 	outcomes  map[H]struct{}
 	stats     *Stats
 	roots     [][]int
@@ -136,19 +151,54 @@ type explorer struct {
 	noExtend  bool    // RunOnce: do not prune
 }
 
-// seen reports whether key was already expanded with at least the budget (p,e); otherwise it
-// records the pair (keeping the stored one unless the new one dominates it).
+// seen reports whether key was already expanded with at least the budget (p,q); otherwise it
+// records the pair. Per key a Pareto set of budget pairs is kept: one entry in visited and, only
+// when incomparable pairs occur (ladders such as (1,0);(0,1), or paths that spent their budgets
+// differently), the others in extra. (Keeping a single pair made every visit with a pair
+// incomparable to the stored one expand the state again, unrecorded, time after time.)
 func (e *explorer) seen(key H, p, q int) bool {
-	if v, ok := e.visited[key]; ok {
-		if int(v.p) >= p && int(v.e) >= q {
-			return true
-		}
-		if p >= int(v.p) && q >= int(v.e) {
-			e.visited[key] = bud{int32(p), int32(q)}
+	v, ok := e.visited[key]
+	if !ok {
+		e.visited[key] = bud{int32(p), int32(q)}
+		return false
+	}
+	if int(v.p) >= p && int(v.e) >= q {
+		return true
+	}
+	if p >= int(v.p) && q >= int(v.e) {
+		e.visited[key] = bud{int32(p), int32(q)}
+		if xs := e.extra[key]; len(xs) > 0 {
+			keep := xs[:0]
+			for _, x := range xs {
+				if !(p >= int(x.p) && q >= int(x.e)) {
+					keep = append(keep, x)
+				}
+			}
+			if len(keep) == 0 {
+				delete(e.extra, key)
+			} else {
+				e.extra[key] = keep
+			}
 		}
 		return false
 	}
-	e.visited[key] = bud{int32(p), int32(q)}
+	// incomparable with the first entry
+	xs := e.extra[key]
+	for _, x := range xs {
+		if int(x.p) >= p && int(x.e) >= q {
+			return true
+		}
+	}
+	keep := xs[:0]
+	for _, x := range xs {
+		if !(p >= int(x.p) && q >= int(x.e)) {
+			keep = append(keep, x)
+		}
+	}
+	if e.extra == nil {
+		e.extra = map[H][]bud{}
+	}
+	e.extra[key] = append(keep, bud{int32(p), int32(q)})
 	return false
 }
 
@@ -313,7 +363,7 @@ func (e *explorer) backtrack() bool {
 
 func (e *explorer) runOne(fac Factory, tracing bool) *Result {
 	ex := fac()
-	s := &sched{ch: e, maxSteps: e.opt.MaxSteps, tmrOrder: e.opt.TimerOrder, tracing: tracing}
+	s := &sched{ch: e, maxSteps: e.opt.MaxSteps, tmrOrder: e.opt.TimerOrder, delay: e.opt.DelayBounded, lazyTmr: e.opt.LazyTimers, tracing: tracing}
 	if s.maxSteps == 0 {
 		s.maxSteps = 100000
 	}
